@@ -156,6 +156,12 @@ func (w *World) trackBefore(op M) {
 				delete(w.sAsks, gs(op, "key"))
 			}
 		}
+	case "releaseAll":
+		for k, a := range w.sAsks {
+			if a.App == gs(op, "app") {
+				delete(w.sAsks, k)
+			}
+		}
 	case "removeApp":
 		for k, a := range w.sAsks {
 			if a.App == gs(op, "app") {
